@@ -1,6 +1,7 @@
 package main
 
 import (
+	"fmt"
 	"go/token"
 	"strings"
 
@@ -89,6 +90,45 @@ func c55(c *Ctx) {
 		}
 		c.Expect(exemptKept, st, f, "exempt-entries-of-dropped-tail-kept", "grpc-trace-bin entries located after the first over-limit entry are dropped (the kept list is only a prefix)")
 		c.Expect(DataDep(func(v ssa.Value) bool { s, ok := v.(*ssa.Slice); return ok && FieldLoad(fEntry)(s.X) && s.Low == nil })(st.Val), st, f, "kept-starts-with-fitting-prefix", "the kept list does not start with the fitting prefix of the entries")
+		// the fitting-prefix loop: it stops early only at an entry strictly larger than what is left of the limit
+		var header *ssa.BasicBlock
+		for _, b := range f.Blocks {
+			if i, ok := b.Instrs[len(b.Instrs)-1].(*ssa.If); ok {
+				if bo, ok := i.Cond.(*ssa.BinOp); ok && bo.Op == token.LSS && LenOf(FieldLoad(fEntry))(bo.Y) {
+					if _, isPhi := bo.X.(*ssa.Phi); isPhi && isLoopHeader(b) {
+						header = b
+					}
+				}
+			}
+		}
+		if c.Expect(header != nil, st, f, "prefix-loop", "no loop 'index < len(entries)' computing the fitting prefix") {
+			nb := 0
+			body, done := header.Succs[0], header.Succs[1]
+			for _, p := range done.Preds {
+				if p == header || !(p == body || body.Dominates(p)) {
+					continue
+				}
+				nb++
+				okEdge := false
+				for _, fs := range incomingFacts(p, done) {
+					for _, fc := range fs {
+						if fc.Kind != "cmp" {
+							continue
+						}
+						x, y, op := fc.X, fc.Y, fc.Op
+						if op == token.LSS {
+							x, y, op = y, x, token.GTR
+						}
+						// entry size > remaining limit, exactly
+						if op == token.GTR && DataDep(LenOf(AnyV))(x) && DataDep(FieldLoad(c.field(bl, "TruncatingMethodLogger", "headerMaxLen")))(y) {
+							okEdge = true
+						}
+					}
+				}
+				c.Expect(okEdge, p.Instrs[len(p.Instrs)-1], f, "prefix-stops-only-at-first-entry-that-does-not-fit", "the fitting-prefix loop is left on an edge that is not 'entry size > remaining limit' (an entry that fits exactly must be kept; an exempt key never ends the prefix)")
+			}
+			c.Expect(nb == 1, st, f, "one-prefix-stop", fmt.Sprintf("expected exactly one early exit from the fitting-prefix loop, found %d", nb))
+		}
 		// truncated flag
 		for _, r := range returnsOf(f) {
 			if r.Block() == f.Recover {
